@@ -455,6 +455,17 @@ func (fr *Frame) callWithSpec(callee *ssa.Function, spec *FuncSpec, args []Val, 
 			fx.assume(st.guard, imp(inModel, t))
 		}
 	}
+	if spec.ResultIs != "" && len(resVals) == 1 {
+		// the function is deterministic and effect-free, so its result is a
+		// function of its arguments: the named spec function
+		var cargs []Expr
+		for _, n := range names {
+			cargs = append(cargs, &EIdent{Name: n})
+		}
+		rv := post.eval(&ECall{Fn: spec.ResultIs, Args: cargs})
+		fx.assume(st.guard, post.equalView(cvOf(resVals[0]), rv))
+		fx.noteAssumption(key + " is deterministic and has no effects: its result is denoted by the spec function " + spec.ResultIs)
+	}
 	if spec.MayPanic {
 		fr.panicPoint(pre, pos, key)
 	}
